@@ -350,7 +350,8 @@ where
                         failure_persistence: None,
                         rng_seed: RngSeed::Fixed(seed),
                         max_shrink_iters: 20_000,
-                        max_global_rejects: 1_000_000,
+                        max_global_rejects: 10_000_000,
+                        max_local_rejects: 10_000_000,
                         ..Config::default()
                     };
                     let mut runner = TestRunner::new(cfg);
